@@ -30,6 +30,7 @@ func vEngines() []drv.Runner {
 		drv.Wrap(drv.Engine[c10Case]{Property: "C10", Name: "c10", Gen: genC10, Run: runC10}),
 		drv.Wrap(drv.Engine[c09Case]{Property: "C09", Name: "c09", Gen: genC09, Run: runC09, BatchChecks: 100}),
 		drv.Wrap(drv.Engine[c20Case]{Property: "C20", Name: "c20", Gen: genC20, Run: runC20, BatchChecks: 100}),
+		drv.Wrap(drv.Engine[c20sCase]{Property: "C20", Name: "c20-seq", Gen: genC20Seq, Run: runC20Seq, BatchChecks: 50}),
 		// the write-path clause of C05 (only authorized writes take effect) is decided by the same engine
 		drv.Wrap(drv.Engine[c20Case]{Property: "C05", Name: "c20", Gen: genC20, Run: runC20, BatchChecks: 100}),
 		drv.Wrap(drv.Engine[c05oCase]{Property: "C05", Name: "c05-open", Gen: genC05Open, Run: runC05Open, BatchChecks: 100}),
